@@ -296,7 +296,31 @@ def run(repo, chk):
         got = [bytes(x) for x in asm3[cls](IL3(3), L3('lbl'), IL3(-1), IL3(39, True)).lines()]
         chk.expect(got == [prefix + b"3, lbl, -1, '\\''"], 'C13.B3', f'{cls}.lines', f'items rendered in order, comma separated: {got}', ASM)
         chk.expect([bytes(x) for x in asm3[cls](IL3(7)).lines()] == [prefix + b'7'], 'C13.B3', f'{cls}.lines single', '', ASM)
+        # long tables: however the items are spread over lines, every item is there once, in order
+        bad_n = None
+        for n_ in (0, 1, 7, 8, 9, 15, 16, 17, 31, 32, 33, 63, 64, 65, 100, 257):
+            try:
+                ls_ = [bytes(x) for x in asm3[cls](*[IL3(i_ % 200) for i_ in range(n_)]).lines()]
+            except Exception as e_:      # noqa: BLE001
+                bad_n = bad_n or f'{n_} items: {type(e_).__name__}: {e_}'
+                continue
+            flat = []
+            for l_ in ls_:
+                if not l_.startswith(prefix.rstrip()):
+                    bad_n = bad_n or f'{n_} items: line {l_[:30]!r} is not a {prefix.decode().strip()} directive'
+                    break
+                body_ = l_[len(prefix.rstrip()):].strip()
+                flat += [x_.strip() for x_ in body_.split(b',')] if body_ else []
+            if flat != [str(i_ % 200).encode() for i_ in range(n_)]:
+                bad_n = bad_n or f'a table of {n_} items is rendered with {len(flat)} items' + \
+                    (f' (first difference at item {next((k for k, (a_, b_) in enumerate(zip(flat, [str(i_ % 200).encode() for i_ in range(n_)])) if a_ != b_), min(len(flat), n_))})')
+        chk.expect(bad_n is None, 'C13.B3', f'{cls}.lines long tables', bad_n or 'every item once, in order, for 0..257 items', ASM)
 
+    # which storage a name denotes: a local (or parameter) wins over a global of that name, whenever the global was materialised
+    # (shared with C01.S1, lookup_var interpreted)
+    if chk.__class__.__name__ == 'Check':
+        from . import c01 as _c01
+        _c01.run(repo, Remap(chk, {'C01.S1': lambda c: 'C13.B3' if c.startswith('lookup_var') else None}))
     from .c09 import rendering
     rendering(repo, chk, 'C13.B3')
 
